@@ -2,6 +2,16 @@
 import json, re, collections
 
 
+ALPHA_RENAME = False
+
+
+def hash_name(n):
+    h = 0
+    for c in n:
+        h = (h * 131 + ord(c)) % 1000003
+    return h
+
+
 class Body:
     __slots__ = ("d", "path", "root", "kind", "file", "line", "nargs", "locals", "blocks",
                  "vars", "x", "coroutine", "_succs", "_preds", "_defs", "_varnames")
@@ -17,6 +27,10 @@ class Body:
         self.locals = d["locals"]
         self.blocks = d["blocks"]
         self.vars = d.get("vars", [])
+        if ALPHA_RENAME:
+            # metamorphic mode (tools/alpha_audit.py): every source-level variable name is replaced consistently, as a
+            # wholesale rename of locals, parameters and captures would; no verdict may depend on such a name
+            self.vars = [dict(v, n=v["n"] if v["n"] == "self" else "q%s_" % abs(hash_name(v["n"]))) for v in self.vars]
         self.x = d.get("x")
         self.coroutine = d.get("coroutine")
         self._succs = None
